@@ -72,7 +72,7 @@ theorem isort_sorted (l : List Int) : Sorted (isort l) := by
   | cons x xs ih => exact ins_sorted x _ ih
 
 theorem sorted_perm_eq {a b : List Int} (ha : Sorted a) (hb : Sorted b) (h : a.Perm b) : a = b :=
-  List.Perm.eq_of_pairwise (le := (· ≤ ·)) (fun x y _ _ h1 h2 => Int.le_antisymm h1 h2) ha hb h
+  List.Perm.eq_of_pairwise (le := (· ≤ ·)) (fun _ _ _ _ h1 h2 => Int.le_antisymm h1 h2) ha hb h
 
 /-- the judge's test "equals the naive sort" means: sorted, and the same multiset -/
 theorem eq_isort_iff (out xs : List Int) : out = isort xs ↔ Sorted out ∧ out.Perm xs := by
